@@ -57,10 +57,10 @@ PROPS = {
         'not_decided': ['non-increasing in speed beyond the assumed monotonicity of IEEE division'],
     },
     'C11': {
-        'technique': 'Verus contract on the extracted text of Engine::generator (per-stream wiring) + Kani harnesses on Mask::create / MlpgAdjust::create / Models::stream; the interpolated voicing weight itself: Verus unit interp (ModelParameter::{mul, mul_add_assign}: msd_out = w*msd, msd_out = msd + w*msd_k) + Kani mul with weights 1/2, 2, 1/4; Kani: the argument lists of the three MlpgAdjust::new calls of Engine::generator cut from its text (K-genargs, full symbolic condition values)',
+        'technique': 'Verus contract on the extracted text of Engine::generator (per-stream wiring) + Kani harnesses on Mask::create / MlpgAdjust::create / Models::stream; the interpolated voicing weight itself: Kani ModelParameter::mul with weights 1/2, 2, 1/4 (msd_out = w*msd for every msd; the unbounded statement for mul / mul_add_assign is Verus unit interp, which belongs to C10); Kani: the argument lists of the three MlpgAdjust::new calls of Engine::generator cut from its text (K-genargs, full symbolic condition values)',
         'level_text': 'unbounded proof that stream i receives exactly msd_threshold[i], gv_weight[i], model_stream(i); voiced <=> msd > threshold and NODATA placement bounded by Kani',
         'level_note': 'callees abstracted by uninterpreted functions of their arguments (determinism of safe Rust without interior mutability assumed)',
-        'verus': ['engine', 'vocoder', 'interp'],
+        'verus': ['engine', 'vocoder'],
         'assumptions': [], 'trusted_base': [], 'not_decided': [],
     },
     'C19': {
@@ -126,10 +126,10 @@ PROPS = {
     },
     'C01': {
         'scans': ['vocoder_no_hidden_state'],
-        'technique': 'Verus contracts on the extracted text of SpeechGenerator, DurationEstimator and Engine::{generator,synthesize}; Kani harnesses for hole contracts, MlpgAdjust::create shapes and Excitation::new (ring buffer of exactly nlpf slots); Verus unit ringbuf: Excitation::get indexes lpf only below the ring length',
+        'technique': 'Verus contracts on the extracted text of SpeechGenerator, DurationEstimator and Engine::{generator,synthesize}; Kani harnesses for hole contracts, MlpgAdjust::create shapes and Excitation::new (ring buffer of exactly nlpf slots)',
         'level_text': 'unbounded proof of no-panic and exact length (fperiod x sum of state durations), every state >= 1 frame, every label contributes all states, empty -> empty, for 2- and 3-stream voices, relative to the assumed contracts of Models / MlpgAdjust / Vocoder; those contracts are bounded-checked by Kani where stated',
         'level_note': 'finiteness / "NaN only after runaway growth" is NOT decided (IIR stability in floating point); Vocoder::synthesize panic-freedom under shape_ok, Models::duration length and MlpgAdjust::create shape are assumed in Verus and only bounded-checked; usize overflow of frame totals excluded by precondition',
-        'verus': ['speech', 'duration', 'engine', 'vocoder', 'ringbuf'],
+        'verus': ['speech', 'duration', 'engine', 'vocoder'],
         'assumptions': VOC_ASSUMED + ['Models::duration returns labels*nstate entries (assumed)', 'MlpgAdjust::create returns sum(durations) rows of vector_length values (Kani: bounded)'],
         'trusted_base': [],
         'not_decided': ['all samples finite inside the stable range; non-finite only after runaway growth', 'Model::get_parameter todo!() unreachable only for well-formed models (precondition lookup_ok in unit tree)'],
